@@ -111,9 +111,9 @@ class Gen:
         q = F(q)
         if kind == 'int' or (q.denominator == 1 and self.rng.random() < 0.5):
             if q.denominator == 1:
-                return {'ty': 'int', 'v': str(int(q))}
+                return {'ty': 'npint' if self.rng.random() < 0.1 else 'int', 'v': str(int(q))}
         if self.style == 'float' or (self.style == 'mixed' and self.rng.random() < 0.5):
-            return {'ty': 'float', 'v': float(q).hex()}
+            return {'ty': 'npfloat' if self.rng.random() < 0.1 else 'float', 'v': float(q).hex()}
         return {'ty': 'time', 'v': str(q)}
 
     def new_param(self, prefix, q, kind='time'):
@@ -695,8 +695,10 @@ def tparam(d, ty):
     d = F(d)
     if ty == 'float':
         return {'ty': 'float', 'v': float(d).hex()}
-    if ty == 'int':
-        return {'ty': 'int', 'v': str(int(d))}
+    if ty == 'npfloat':
+        return {'ty': 'npfloat', 'v': float(d).hex()}
+    if ty in ('int', 'npint', 'npuint'):
+        return {'ty': ty, 'v': str(int(d))}
     return {'ty': ty, 'v': str(d)}
 
 
@@ -929,7 +931,8 @@ def gen_drop_cases(tier):
 INEXACT_MULTIPLES = [('0.1', 3), ('0.7', 3), ('1.1', 3), ('0.3', 3), ('0.2', 6), ('0.1', 7), ('0.05', 3), ('100.001', 7),
                      ('1.3', 1000003), ('0.6', 6), ('3.3', 7), ('2.2', 3)]     # float(d) * n is not the double nearest to d * n
 EXACT_MULTIPLES = [('0.5', 3), ('0.1', 2), ('2', 3), ('0.25', 7)]             # controls
-MC_CONFIGS = [[2, 1], [3, 1], ['half', 1], ['total', 1], [4, 2], [1, 1]]
+MC_CONFIGS = [[2, 1], [3, 1], ['half', 1], ['total', 1], [4, 2], [1, 1], [2, 1, 'cleanup'], [3, 1, 'cleanup'], [1, 1, 'cleanup'],
+              [2, 1, 'flatten'], [1, 1, 'flatten']]
 
 
 def gen_decimal_cases(tier):
@@ -969,8 +972,9 @@ def gen_decimal_cases(tier):
                     main = (d, n) in INEXACT_MULTIPLES[:3] and bname == 'const'
                     if tier == 'quick' and not main and (k * 7 + len(bname)) % 23:
                         continue
-                    params = {'t_1': tparam(d, style), 't_2': tparam(F(d) * 2, style), 't_r': tparam('0.4', 'time'),
-                              'n_1': tparam(n, 'int')}
+                    st = 'npfloat' if style == 'float' and k % 4 == 0 else style        # numpy.float64 now and then
+                    params = {'t_1': tparam(d, st), 't_2': tparam(F(d) * 2, st), 't_r': tparam('0.4', 'time'),
+                              'n_1': tparam(n, ('int', 'npint', 'npuint')[k % 3] if n < 256 else 'int')}
                     rep = {'t': 'rep', 'count': var('n_1'), 'body': mk()}
                     rmp = copy.deepcopy(ramp if nch == 1 else ramp2)
                     case = {'kind': 'tpl', 'style': 'exact' if style == 'time' else 'float', 'family': 'decimal'}
@@ -1030,6 +1034,12 @@ def gen_alias_cases(tier):
         mp({'t_w': var('t_r'), 't_r': var('t_w')}, seq(w, r, w)),
         {'t': 'constr', 'cs': [[lit(0), var('t_w')]], 'body': seq(w, r, w)},
         seq(w, r, w, meas=[['m', 0, 1]]),
+        seq(r, r, via='tconcat'), seq(r, r, r, via='tconcat'),
+        seq({'t': 'rep', 'count': lit(2), 'body': seq(r, r, via='tconcat')}, r),
+        seq(mp({'t_w': var('t_r')}, w), mp({'t_w': op('add', var('t_w'), var('t_r'))}, w), w, via='tuple'),
+        seq(mp({'t_w': var('t_r'), 't_r': var('t_w')}, x), x, via='tuple'),
+        {'t': 'rep', 'count': lit(2), 'via': 'pow', 'body': {'t': 'rep', 'count': var('n_1'), 'via': 'pow', 'body': dc(w)}},
+        seq({'t': 'rep', 'count': var('n_1'), 'via': 'pow', 'body': dc(x)}, {'t': 'rep', 'count': lit(2), 'via': 'pow', 'body': dc(x)}),
     ]
     vals = [('0.5', '1.5'), ('0.1', '0.7'), ('3', '5')]
     k = 0
@@ -1052,8 +1062,32 @@ def gen_alias_cases(tier):
     return cases
 
 
+def gen_badtable_cases(tier):
+    """deterministic: tables the instantiation must reject or truncate (TableWaveform._validate_input error paths):
+    decreasing / negative entry times given through parameters, a single negative entry, a zero-length table, equal
+    times; alone, in a repetition and next to a valid channel"""
+    cases = []
+    rows = [(['t_a', 't_b'], {'t_a': '2', 't_b': '1'}), (['t_a', 't_b'], {'t_a': '1', 't_b': '-1'}), (['t_b'], {'t_b': '-1'}),
+            ([0, 't_b'], {'t_b': '-1'}), ([0, 't_a', 't_b'], {'t_a': '2', 't_b': '1'}), ([0, 't_a', 't_b'], {'t_a': '0', 't_b': '0'}),
+            (['t_a', 't_a', 't_b'], {'t_a': '1', 't_b': '1'}), ([0, 't_a', 't_b', 't_a'], {'t_a': '1', 't_b': '2'}),
+            ([0, 't_a'], {'t_a': '0'}), (['t_a', 't_b'], {'t_a': '0.1', 't_b': '0.3'})]
+    for k, (ts, vals) in enumerate(rows):
+        es = [lit(0) if x == 0 else var(x) for x in ts]
+        tab = {'t': 'table', 'chans': {'c00': es}, 'v': {'c00': [i % 3 for i in range(len(es))]},
+               'interp': {'c00': ['hold', 'linear', 'jump', 'hold'][:len(es)]}}
+        two = {'t': 'table', 'chans': {'c00': copy.deepcopy(es), 'c01': [lit(0), lit(3)]}, 'v': {'c00': [0] * len(es), 'c01': [0, 1]},
+               'interp': {'c00': ['hold'] * len(es), 'c01': ['hold', 'linear']}}
+        for j, tpl in enumerate((tab, {'t': 'rep', 'count': lit(2), 'body': copy.deepcopy(tab)}, two,
+                                 {'t': 'map', 'm': {}, 'cm': {'c00': None}, 'body': copy.deepcopy(two)})):
+            for ty in ('time', 'float') if tier == 'thorough' else ('time',):
+                cases.append({'kind': 'tpl', 'style': 'exact' if ty == 'time' else 'float', 'family': 'badtable', 'tpl': copy.deepcopy(tpl),
+                              'params': {x: tparam(v, ty if F(v).denominator != 1 else 'int') for x, v in vals.items()}})
+    return cases
+
+
 def gen_cases(rng, tier, ctx):
     cases = []
+    cases.extend(gen_badtable_cases(tier))
     cases.extend(gen_remap_cases(tier))
     cases.extend(gen_drop_cases(tier))
     cases.extend(gen_decimal_cases(tier))
@@ -1171,8 +1205,16 @@ def build0(t, singles=None, constraints=None, memo=None):
             return out
         if t.get('via') == 'concat':
             return SequencePT.concatenate(*parts, **kw)
+        if t.get('via') == 'tconcat':       # table_pulse_template.concatenate: ONE table, the durations add up
+            from qupulse.pulses.table_pulse_template import concatenate as table_concatenate
+            return table_concatenate(*parts, **kw)
+        if t.get('via') == 'tuple':         # (template, parameter mapping) tuples: MappingPT.from_tuple
+            parts = [(sub(c['body']), {x: expr_str(e) for x, e in c['m'].items()})
+                     if c['t'] == 'map' and c['m'] and 'cm' not in c else sub(c) for c in t['subs']]
         return SequencePT(*parts, **kw)
     if k == 'rep':
+        if t.get('via') == 'pow' and not kw:      # pt ** n = with_repetition (merges the counts of nested repetitions)
+            return sub(t['body']) ** expr_arg(t['count'])
         return RepetitionPT(sub(t['body']), expr_arg(t['count']), **kw)
     if k == 'for':
         return ForLoopPT(sub(t['body']), t['idx'], (expr_arg(t['start']), expr_arg(t['stop']), expr_arg(t['step'])), **kw)
@@ -1230,6 +1272,9 @@ def py_param(p, decimal=False):
     from qupulse.utils.types import TimeType
     if p['ty'] == 'int':
         return int(p['v'])
+    if p['ty'] in ('npint', 'npuint'):
+        import numpy
+        return (numpy.int64 if p['ty'] == 'npint' else numpy.uint8)(int(p['v']))
     if p['ty'] == 'time':
         f = F(p['v'])
         return TimeType.from_fraction(f.numerator, f.denominator)
@@ -1240,6 +1285,9 @@ def py_param(p, decimal=False):
         f = F(p['v'])
         return gmpy2.mpq(f.numerator, f.denominator)
     x = float.fromhex(p['v'])
+    if p['ty'] == 'npfloat' and not decimal:
+        import numpy
+        return numpy.float64(x)
     return TimeType.from_float(x) if decimal else x
 
 
@@ -1305,10 +1353,17 @@ def run_make_compatible(prog, configs):
         return [{'err': 'rate'}]
     total = vlib.to_fraction(prog.duration) * sr
     out = []
-    for min_len, quantum in configs:
+    for min_len, quantum, *pre in configs:
         ml = int(total) if min_len == 'total' else max(1, int(total) // 2) if min_len == 'half' else int(min_len)
         p2 = prog.copy_tree_structure()
         try:
+            if pre and pre[0] == 'cleanup':        # merges single children: leaves with a repetition count > 1
+                p2.cleanup()
+            elif pre and pre[0] == 'flatten':
+                if max(l.repetition_count for l in p2.get_depth_first_iterator()) > 1000:
+                    out.append({'err': 'big'})      # flatten_and_balance unrolls
+                    continue
+                p2.flatten_and_balance(1)
             make_compatible(p2, ml, int(quantum), TimeType.from_fraction(sr, 1))
         except (ValueError, AssertionError) as e:
             out.append({'err': type(e).__name__})
@@ -1449,7 +1504,7 @@ def names_of(case):
 
 
 def g_value(p):
-    if p['ty'] == 'int':
+    if p['ty'] in ('int', 'npint', 'npuint'):
         return '(VInt %s)' % gZ(int(p['v']))
     if p['ty'] == 'time':
         return '(VTime %s)' % gQ(F(p['v']))
